@@ -39,7 +39,33 @@ def _cull_cmp(fn):
     return found[0]
 
 
+def _alpha(fn):
+    """copy of a method with its parameters (but self) and local variables renamed in order of first
+    appearance (p0, p1, … / v0, v1, …): the shape tests below do not depend on the names chosen"""
+    import copy
+    fn = copy.deepcopy(fn)
+    names = {}
+    for k, a in enumerate(x for x in fn.args.args if x.arg != 'self'):
+        names[a.arg] = 'p%d' % k
+        a.arg = names[a.arg]
+    stored = []
+    for node in ast.walk(fn):
+        if isinstance(node, ast.Name) and isinstance(node.ctx, ast.Store) and node.id not in names \
+                and node.id not in stored:
+            stored.append(node.id)
+    # order of first appearance in the source
+    order = sorted(stored, key=lambda n: min((x.lineno, x.col_offset) for x in ast.walk(fn)
+                                             if isinstance(x, ast.Name) and x.id == n))
+    for k, n in enumerate(order):
+        names[n] = 'v%d' % k
+    for node in ast.walk(fn):
+        if isinstance(node, ast.Name) and node.id in names:
+            node.id = names[node.id]
+    return fn
+
+
 def _expire_weak_always(fn):
+    fn = _alpha(fn)
     body = strip_doc(fn.body)
     early = False
     for st in body:
@@ -47,25 +73,29 @@ def _expire_weak_always(fn):
                 and len(st.body) == 1 and isinstance(st.body[0], ast.Return):
             early = True
     src = ast.unparse(fn)
-    if 'del self.expiredCache[id]' not in src and 'self.expiredCache.pop(id' not in src:
+    if 'del self.expiredCache[p0]' not in src and 'self.expiredCache.pop(p0' not in src:
         raise ExtractError('CacheFactory.expire no longer deletes the weak entry')
     return not early
 
 
 def _tryget_falls_through(fn):
     """does tryGet go on to the strong cache when the weak reference it finds is dead?"""
+    fn = _alpha(fn)
     body = strip_doc(fn.body)
+    if not body or ast.unparse(body[0]) != 'v0 = self.expiredCache.get(p0)':
+        raise ExtractError('tryGet does not start by looking up the weak entry: %s'
+                           % (ast.unparse(body[0]) if body else '<empty>'))
     first = None
-    for st in body:
-        if isinstance(st, ast.If) and ast.unparse(st.test) == 'value':
+    for st in body[1:]:
+        if isinstance(st, ast.If) and ast.unparse(st.test) in ('v0', 'v0 is not None'):
             first = st
             break
     if first is None:
-        raise ExtractError('tryGet: `if value:` not found')
+        raise ExtractError('tryGet: test of the weak entry not found')
     src = [ast.unparse(x) for x in first.body]
-    if src == ['return value()']:
+    if src == ['return v0()']:
         return False
-    if src == ['obj = value()', 'if obj is not None:\n    return obj']:
+    if src == ['v1 = v0()', 'if v1 is not None:\n    return v1']:
         return True
     raise ExtractError('tryGet: unknown handling of the weak entry: %r' % src)
 
